@@ -195,7 +195,8 @@ def st_case(draw):
     existing = draw(st_op(cols0, universe, fixed[1], custom=True))
     cols1 = cols_after(existing, cols0, frozenset(fixed[1]))
     # the new operation is drawn for the columns it will see, but may also name a tag the existing operation hid
-    new = draw(st_op(cols1, universe, fixed[1]))
+    # (the new operation may be user-defined as well: it then runs whatever commute() its base class provides)
+    new = draw(st_op(cols1, universe, fixed[1], custom=existing[0] not in ("tsort", "cfilt", "alt", "atleast", "rev")))
     if new[0] == "pjoin" and fixed[1] and draw(st.integers(0, 2)) == 0:
         # the fixed operand is itself a tree: deduplication, then a projection (which may bring duplicates back)
         order = draw(st.permutations(sorted_tags(fixed[1])))
@@ -561,6 +562,7 @@ def exhaustive(tier, stats, shard, nshards, run):
     for rows in targets:
         leaf = ("L0", (A, B, C), rows, 1, "data", (len(rows), len(rows)), "plain")
         pairs = [(fixed, existing, new) for existing in g + customs for new in g]
+        pairs += [(fixed, existing, new) for existing in g for new in customs if not well_formed(new, cols_after(existing, frozenset((A, B, C)), frozenset((A, D))), frozenset((A, D)))]
         pairs += [(identity, existing, new) for existing in g + customs for new in idjoins]
         pairs += [(fixed, existing, new, ("dp", (A,))) for existing in g + customs for new in g if new[0] == "pjoin" and new[2] is None]
         pairs += [(fixed, existing, new, None, ("dedup",)) for existing in g for new in g if existing[0] in ("proj", "calc", "sel", "sort") or new[0] == "dedup"]
